@@ -246,11 +246,11 @@ def showQuery : Query → (String × List LJson)
   | .read p c => ("read", [.str (showPath p), .str c.name])
 
 partial def showOp : Op → LJson
-  | .simple q ret exc =>
+  | .simple q ret exc _ =>
     let (name, args) := showQuery q
     Json.mkObj [("type", .str name), ("args", .arr args.toArray), ("ret", showJson ret),
       ("exc", match exc with | some e => .str e.name | none => .null)]
-  | .buildFile p c f a k subs r cr raised sf =>
+  | .buildFile p c f a k subs r cr raised sf _ =>
     Json.mkObj [("type", "build_file"), ("filename", .str (showPath p)), ("cmp", .str c.name), ("func", .str f),
       ("args", showJson a), ("kwargs", showJson k), ("subs", .arr (subs.map showOp).toArray),
       ("ret", showJson r), ("cmpRes", showJson cr), ("raised", .bool raised), ("setupFailed", .bool sf)]
